@@ -42,6 +42,7 @@ pub fn found_to_report(ctx: &Ctx, rep: &mut RunReport, found: &[Found], scenario
 pub fn absorb_a(ctx: &Ctx, rep: &mut RunReport, sc: &ScenarioA, out: &OutcomeA, nontrivial: bool) {
     rep.evaluations += 1;
     rep.fingerprints.push((out.fingerprint, nontrivial));
+    rep.schedule_hashes.push(out.schedule_hash ^ (out.schedule.len() as u64) << 48);
     rep.agg.absorb_a(&out.stats);
     if let Some(e) = &out.harness_error {
         rep.harness_errors.push(e.clone());
@@ -1017,6 +1018,9 @@ pub fn run_c19(ctx: &Ctx, run: u64) -> RunReport {
     for (k, v) in &out.probes {
         rep.agg.add(&format!("probe.{k}"), *v);
     }
+    if let Some(h) = out.found.iter().find(|f| f.class == "harness-panic") {
+        rep.harness_errors.push(h.message.clone());
+    }
     found_to_report(ctx, &mut rep, &out.found, &Scenario::T(sc.clone()), out.fingerprint);
     if run % 997 == 0 {
         rep.sample = Some(json!({"initial_mb": sc.initial_mb, "operations": sc.ops.len(), "first_operations": sc.ops.iter().take(12).map(|o| format!("{o:?}")).collect::<Vec<_>>()}));
@@ -1227,14 +1231,16 @@ pub fn gen_c14(ctx: &Ctx, run: u64) -> ScenarioA {
             min_r = min_r.min(r);
             let mut g = GoSpec::default();
             let inc = if rng.chance(1, 2) { Some(*rng.pick(&[0u64, 10, 100, 1_000, 10_000])) } else { None };
+            // the opponent's clock is absent in a quarter of the searches
+            let opp = if rng.chance(1, 4) { None } else { Some(rng.range(0, 100_000)) };
             if white {
                 g.wtime = Some(r);
                 g.winc = inc;
-                g.btime = Some(rng.range(0, 100_000));
+                g.btime = opp;
             } else {
                 g.btime = Some(r);
                 g.binc = inc;
-                g.wtime = Some(rng.range(0, 100_000));
+                g.wtime = opp;
             }
             g.movestogo = *rng.pick(&[None, None, Some(1u32), Some(2), Some(5), Some(40)]);
             let overhead = if rng.chance(1, 2) { 0 } else { rng.range(0, (r / 2).min(1_000)) };
@@ -1334,6 +1340,11 @@ fn gen_c12_script(rng: &mut Rng, thorough: bool, with_newgame: bool) -> (Vec<Int
             script.push(Intent::IsReady);
         }
         script.push(Intent::WaitBestmove);
+        // prefixes are arbitrary: the table may also be resized between two searches of the old game
+        if before_cut && rng.chance(1, 3) {
+            script.push(Intent::IsReady);
+            script.push(Intent::SetOption { name: "Hash".into(), value: rng.pick(&["1", "2", "3", "4", "8"]).to_string() });
+        }
     }
     script.push(Intent::Quit);
     (script, newgame_at)
